@@ -77,6 +77,8 @@ def run():
     seen = set()
     from . import docgen
     gen = docgen.texts(ck, 600 if ck.tier == 'quick' else 20000)
+    from . import blockparse
+    gen += blockparse.texts(ck, 1000 if ck.tier == 'quick' else 15000)
     ck.extra['docgen_base_texts'] = len(gen)
     for t in gen + inputs.texts(ck.rng, n * 2, no_tabs=True):
         if t in seen or len(t) > 500 or not in_domain(t):
